@@ -113,6 +113,10 @@ pub fn factory_tight(vocab: &Vocab) -> ParserFactory {
     if std::env::var("VERIF_DEFAULT_LIMITS").is_err() {
         l.step_max_items = 6000;
         l.max_items_in_row = 500;
+        // ~1-2 kB per lexer state: keep a pathological case below a few tens of MB
+        l.max_lexer_states = 20_000;
+        l.initial_lexer_fuel = 300_000;
+        l.step_lexer_fuel = 60_000;
     }
     factory_ext(vocab, &[], InferenceCapabilities::default(), Some(l)).expect("factory")
 }
